@@ -510,3 +510,7 @@ mod tests {
     );
   }
 }
+
+#[cfg(rustdds_verif)]
+#[path = "/verif/harness/incrate/access/dds_cache.rs"]
+mod verif_access;
